@@ -867,7 +867,7 @@ var (
 
 func init() {
 	core.Checks["C13"] = func(r *core.Run) {
-		r.Rule = "A1: every sequence of up to 4 (5) loads over 6 module texts (a without revision, with revision 1, 2, {1,2}; b without, with) through Modules.Parse: acceptance of each load, the module the bare name denotes, and the module an import of a without / with revision-date 1 / 2 binds to after Process; A2: every layout of candidate files (name.yang, name@date.yang for two or three dates, a longer-named module's files, name@bad.yang, name@date.txt) over the current directory and two search-path directories x Read(name) / Read(name@date): which file is opened (a marker in each file's description); A3: every partition of a module body (grouping, container using it, leaf with a typedef'd type, list, container) over the module and two submodules with flat and nested includes: the processed tree must equal the unsplit module's. Non-trivial = at least two loads / every layout / every partition."
+		r.Rule = "A1: every sequence of up to 4 (5) loads over 6 module texts (a without revision, with revision 1, 2, {1,2}; b without, with) through Modules.Parse: acceptance of each load, the module the bare name denotes, and the module an import of a without / with revision-date 1 / 2 binds to after Process; A2: every layout of candidate files (name.yang, name@date.yang for two or three dates, a longer-named module's files, name@bad.yang, name@date.txt) over the current directory and two search-path directories x Read(name) / Read(name@date): which file is opened (a marker in each file's description); A3: every partition of a module body (grouping, container using it, leaf with a typedef'd type, list, container) over the module and two submodules with flat and nested includes: the processed tree must equal the unsplit module's. Non-trivial = at least two loads / every layout / every partition. A4: the identities of submodules (directly included, nested, siblings) from the Identities space. B: recorded histories of up to 14 loads of module and submodule texts with queries in between, every load a step of Registry.tla (RegistryTrace.tla), and file choices in random layouts of 2-4 directories."
 		r.Exhaustive = true
 		r.Assumptions = []string{"a submodule's references to definitions in other parts go through its own includes or are placed in the module (RFC 6020 and 7950 agree there)"}
 		C13Registry(r)
